@@ -19,7 +19,7 @@ frame_lemmas (addErrAt E s m p) unfolding addErrAt : memoHits end
 frame_lemmas (addErr E s m) unfolding addErr addErrAt : memoHits end
 frame_lemmas (addErrAtOpt E s o p) unfolding addErrAtOpt addErrAt : memoHits end
 frame_lemmas (addErrOpt E s o) unfolding addErrOpt addErrAtOpt addErrAt : memoHits end
-frame_lemmas (failAt s b p w) unfolding failAt : memoHits end
+frame_lemmas (failAt s b p w) unfolding failAt failAtCore : memoHits end
 frame_lemmas (restore s p) unfolding restore : memoHits end
 frame_lemmas (restoreState E s st) unfolding restoreState : memoHits end
 frame_lemmas (setMemoized s p k t) unfolding setMemoized : memoHits end
